@@ -450,6 +450,111 @@ fn one_case_sized(rep: &mut Report, model: &mut Model, rng: &mut Rng, case_no: u
     let _ = &rig.artifacts;
 }
 
+/// A frame's append is in flight while a context is compiled: the writer has put the body of a frame
+/// larger than its buffer into the log and not yet the newline (parked at the real append's
+/// `log.newline` point). Replies are read from the log (snapshots removed). The compiled context
+/// must be the one compiled before the append started: the frame is not part of the log yet.
+fn inflight_append_case(rep: &mut Report, rng: &mut Rng, case_no: u64) {
+    use std::sync::{Condvar, Mutex};
+    static GATE: (Mutex<u8>, Condvar) = (Mutex::new(0), Condvar::new()); // 0 idle, 1 armed, 2 parked, 3 released
+    let n_frames = rng.range(12, 50) as usize;
+    let rig = build_rig(rng, 3_000_000 + case_no, n_frames, false);
+    let mut names = Names { map: BTreeMap::new() };
+    let frames = read_frames(&rig.data_dir.join("events.jsonl"));
+    let msgs: Vec<String> = frames.iter().filter(|f| f["session_id"].as_str() == Some(rig.thread.as_str()) && f["type"] == "continuity_message_appended").map(|f| f["id"].as_str().unwrap().to_string()).collect();
+    let _ = std::fs::remove_dir_all(rig.data_dir.join("snapshots"));
+    let anchor = msgs.last().unwrap().clone();
+    let want = compile_real(&rig, &anchor, &mut names);
+    // (B) what a reader racing the writer's write call (or a machine that lost power) can see: only
+    // the first bytes of the frame's body are in the file yet
+    if case_no % 2 == 1 {
+        let path = rig.data_dir.join("events.jsonl");
+        let before = std::fs::read(&path).unwrap_or_default();
+        let body = serde_json::to_vec(&ev("some-other-session", 0, "inflight-frame".into(), EventKind::SessionStarted { input: "y".repeat(rng.range(10, 30_000) as usize) })).unwrap();
+        let cut = rng.range(1, body.len() as u64 - 1) as usize;
+        let mut with = before.clone();
+        with.extend_from_slice(&body[..cut]);
+        std::fs::write(&path, &with).unwrap();
+        let got = compile_real(&rig, &anchor, &mut names);
+        std::fs::write(&path, &before).unwrap();
+        rep.evaluations += 1;
+        rep.traces_validated += 1;
+        rep.count("inflight_append_cases");
+        rep.count("inflight_append_partial_body_visible");
+        if want.contains(",a:") {
+            rep.count("inflight_append_cases_with_replies_read_from_the_log");
+        }
+        if got != want {
+            rep.oracle_failure("C08|depends-on-append-in-flight", &format!("compiled while the first {cut} bytes of another frame's body were in the log: {} instead of {}", &got[..got.len().min(300)], &want[..want.len().min(300)]), json!({"case": case_no, "anchor": anchor, "bytes_of_the_inflight_body_visible": cut, "body_bytes": body.len()}));
+        }
+        return;
+    }
+    // (A) park the writer between body and newline
+    *GATE.0.lock().unwrap() = 1;
+    rip_kernel::verif::install(Some(std::sync::Arc::new(|name: &str| {
+        if name == "log.newline" {
+            let mut g = GATE.0.lock().unwrap();
+            if *g == 1 {
+                *g = 2;
+                GATE.1.notify_all();
+                while *g != 3 {
+                    g = GATE.1.wait(g).unwrap();
+                }
+            }
+        }
+    })));
+    let log = rig.log.clone();
+    let big = ev("some-other-session", 0, "inflight-frame".into(), EventKind::SessionStarted { input: "x".repeat(rng.range(20_000, 60_000) as usize) });
+    let writer = std::thread::spawn(move || {
+        let _ = log.append(&big);
+    });
+    {
+        let mut g = GATE.0.lock().unwrap();
+        let deadline = std::time::Instant::now() + std::time::Duration::from_secs(5);
+        while *g != 2 && std::time::Instant::now() < deadline {
+            g = GATE.1.wait_timeout(g, std::time::Duration::from_millis(50)).unwrap().0;
+        }
+    }
+    let parked = *GATE.0.lock().unwrap() == 2;
+    let dangling = std::fs::read(rig.data_dir.join("events.jsonl")).map(|b| b.last() != Some(&b'\n')).unwrap_or(false);
+    // compile on a helper thread so that a compile that needs the log's write lock cannot hang the run
+    let got = {
+        let (tx, rx) = std::sync::mpsc::channel();
+        let (store, log, dd, thread, anchor2) = (rig.store.clone(), rig.log.clone(), rig.data_dir.clone(), rig.thread.clone(), anchor.clone());
+        std::thread::spawn(move || {
+            let link = ContinuityRunLink { continuity_id: thread, message_id: anchor2, actor_id: "user".into(), origin: "cli".into() };
+            let r = ripd::verif_export::session::compile_for_run(&store, &log, &dd.join("snapshots"), &link, "run-under-test");
+            let _ = tx.send(r.is_ok());
+        });
+        if rx.recv_timeout(std::time::Duration::from_secs(10)).is_ok() {
+            compile_real(&rig, &anchor, &mut names)
+        } else {
+            "blocked".to_string()
+        }
+    };
+    {
+        *GATE.0.lock().unwrap() = 3;
+        GATE.1.notify_all();
+    }
+    let _ = writer.join();
+    rip_kernel::verif::install(None);
+    *GATE.0.lock().unwrap() = 0;
+    rep.evaluations += 1;
+    rep.traces_validated += 1;
+    rep.count("inflight_append_cases");
+    if parked && dangling {
+        rep.count("inflight_append_body_on_disk_without_newline");
+    }
+    if want.contains(",a:") {
+        rep.count("inflight_append_cases_with_replies_read_from_the_log");
+    }
+    if got == "blocked" {
+        rep.count("inflight_append_compile_waited_for_the_writer");
+    } else if got != want {
+        rep.oracle_failure("C08|depends-on-append-in-flight", &format!("compiled while the body of another frame was in the log without its newline: {} instead of {}", &got[..got.len().min(300)], &want[..want.len().min(300)]), json!({"case": case_no, "anchor": anchor, "writer_parked_between_body_and_newline": parked, "log_ends_without_newline": dangling}));
+    }
+}
+
 pub fn run(opts: &Opts) -> Report {
     let mut rep = Report::new(
         "C08",
@@ -480,6 +585,10 @@ pub fn run(opts: &Opts) -> Report {
         one_case(&mut rep, &mut model, &mut rng, 1_000_000 + case_no, true, strict);
     }
     rip_kernel::verif::install(None);
+    let ni = if opts.thorough { 200 } else { 24 } * opts.scale;
+    for case_no in 0..ni {
+        inflight_append_case(&mut rep, &mut rng, case_no);
+    }
     for (k, v) in PATHS.lock().unwrap().iter() {
         rep.count_n(&format!("read_{}", k.replace('.', "_")), *v);
     }
